@@ -6,7 +6,11 @@ complete) sequence at each position.  Observed on the real validator: verdict, i
 which it was reached (parse_sequence calls are counted), and the pictures handed to the output callback
 (number + content digest + the video parameters / picture coding mode passed with them).
  - oracle (the property itself): the observation on the concatenation == what the per-sequence runs predict;
- - correspondence: == Model/Stream.v run_obs on the same abstract unit list."""
+ - correspondence: == Model/Stream.v run_obs on the same abstract unit list, and == Model/StreamContent.v
+   crun (numbers AND contents) with `decode` instantiated by a table dumped from the real per-sequence runs:
+   (header id, payload ids of the picture's data units) -> digest of the really decoded picture.
+Sequences with different video parameters / transform parameters / quantisation matrices / fragment usage
+are concatenated in BOTH orders."""
 from __future__ import print_function
 
 import hashlib
@@ -62,15 +66,76 @@ SAFE_MUTATIONS = set(["npo-zero", "npo-wrong", "ppo-wrong", "ppo-zero", "picnum-
                       "hdr-profile", "insert-picture", "insert-first-fragment", "insert-data-fragment"])
 
 
+# configurations only used here: other picture size / colour sampling / wavelet / depth, a custom
+# quantisation matrix, and white-noise pictures (distinct decoded contents)
+EXTRA_CONFIGS = [
+    C01.Config("hq-16x8-422-legall-d2-noise", 3, False, 0, 2, 2, noise=True,
+               overrides={"frame_width": 16, "frame_height": 8, "clean_width": 16, "clean_height": 8,
+                          "color_diff_format_index": 1, "wavelet_index": 1, "wavelet_index_ho": 1, "dwt_depth": 2,
+                          "picture_bytes": 4 * 80}),
+    C01.Config("hq-custom-quant-noise", 3, False, 0, 2, 1, noise=True,
+               overrides={"quantization_matrix": {0: {"LL": 2}, 1: {"HL": 5, "LH": 3, "HH": 7}}}),
+    C01.Config("ld-frames-pic-noise", 0, False, 0, 2, 1, noise=True),
+    C01.Config("hq-fields-frag2-noise", 3, True, 2, 2, 2, noise=True),
+]
+for _i, _c in enumerate(EXTRA_CONFIGS):
+    C01.CONFIG_INDEX[_c.name] = len(CONFIGS) + 1 + _i
+ALL_CONFIGS = list(CONFIGS) + EXTRA_CONFIGS
+
+_pids = {}
+_digests = {}
+
+
+def pid_of(payload):
+    return _pids.setdefault(bytes(payload), len(_pids) + 1)
+
+
+def digest_id(pic):
+    """pic = (pic_num, content digest, parameters digest) -> small integer for (content, parameters)"""
+    return _digests.setdefault((pic[1], pic[2]), len(_digests) + 1)
+
+
+def coq_cunits(units):
+    _, abstract = assemble(units)
+    return "[" + "; ".join("CL " + " ".join(cz(x) for x in t) + " " + cz(pid_of(u.payload))
+                           for t, u in zip(abstract, units)) + "]"
+
+
+def completion_keys(units):
+    """The key Corr/C10.v's decode_t computes for every data unit that may complete a picture, in
+    order: (header id, payload ids of the fragments since the last first-fragment/picture + this payload)."""
+    hid = -1
+    frags = []
+    remaining = 0
+    out = []
+    for u in units:
+        if u.tag == 0:
+            hid = u.f[0]
+        elif u.tag == 1:
+            out.append((hid, tuple(frags + [pid_of(u.payload)])))
+            frags = []
+        elif u.tag == 2:
+            frags = [pid_of(u.payload)]
+            remaining = (u.f[5] // 65536) * (u.f[5] % 65536)
+        elif u.tag == 3:
+            remaining -= u.f[2]
+            if remaining == 0:
+                out.append((hid, tuple(frags + [pid_of(u.payload)])))
+            frags = frags + [pid_of(u.payload)]
+        elif u.tag == 6:
+            hid, frags, remaining = -1, [], 0
+    return out
+
+
 def complete(units):
     """one complete sequence: ends with its only end_of_sequence unit"""
     return bool(units) and units[-1].tag == 6 and all(u.tag != 6 for u in units[:-1])
 
 
-def make_sequence(rng, conformant):
+def make_sequence(rng, conformant, cfg0=None):
     """-> (units, config name) ; conformant or not as asked (judged by the C01 rule checkers)."""
     for _ in range(200):
-        cfg = rng.choice(CONFIGS)
+        cfg = cfg0 if cfg0 is not None else rng.choice(ALL_CONFIGS)
         level = rng.choice([0, 0, 1, 3, 64, 65, 66])
         if not admissible(cfg, level):
             level = 0
@@ -115,38 +180,56 @@ def run(ctx):
     rng = ctx.rng
     impl()
     ctx.extra["rule"] = (
-        "streams of 1..N complete sequences (N = 3 quick / 4 thorough) from 8 differing codec configurations x versions x levels "
-        "x first picture numbers; every position optionally holds one non-conformant (complete) sequence. Observed: verdict class, "
-        "index of the sequence where it was reached, pictures output (number, content digest, parameters digest). Oracle: equals the "
-        "prediction from the per-sequence runs (verdict and pictures of the first non-accepted sequence; all pictures of the ones before). "
-        "Correspondence: equals run_obs of Model/Stream.v. A case is non-trivial when it has at least two sequences.")
+        "streams of 1..N complete sequences (N = 3 quick / 4 thorough) from 12 differing codec configurations (profile, fields/frames, "
+        "pictures/fragments, slice counts, symmetric/asymmetric transform, 8x4 4:4:4 Haar depth 1 vs 16x8 4:2:2 LeGall depth 2, default vs "
+        "custom quantisation matrix, mid-grey vs white-noise pictures) x versions x levels x first picture numbers; every ordered pair of "
+        "distinct configurations is concatenated (both orders); every position optionally holds one non-conformant (complete) sequence. "
+        "Observed: verdict class, index of the sequence where it was reached, pictures output (number, digest of the decoded sample "
+        "arrays, digest of the video parameters + picture coding mode). Oracle: equals the prediction from the per-sequence runs. "
+        "Correspondence: equals run_obs of Model/Stream.v (numbers) and crun of Model/StreamContent.v (numbers and contents, decode = "
+        "table of real per-sequence decodes keyed by header id + payload ids). Non-trivial = at least two sequences.")
     ctx.trusted.append("C10 harness counts parse_sequence calls by wrapping vc2_conformance.decoder.stream.parse_sequence in-process; "
                        "level CONSTRAINT table made permissive as in C01")
     maxseq = ctx.pick(3, 4)
-    n_streams = ctx.pick(1500, 8000)
-    pool_ok = [make_sequence(rng, True) for _ in range(ctx.pick(40, 200))]
+    n_streams = ctx.pick(1200, 8000)
+    # pools: at least one conformant sequence WITH pictures per configuration, then random ones
+    pool_ok, by_cfg = [], {}
+    for cfg in ALL_CONFIGS:
+        for _ in range(50):
+            sq = make_sequence(rng, True, cfg)
+            if any(u.tag in (1, 2) for u in sq[0]):
+                break
+        by_cfg[cfg.name] = len(pool_ok)
+        pool_ok.append(sq)
+    pool_ok += [make_sequence(rng, True) for _ in range(ctx.pick(40, 200))]
     pool_bad = [make_sequence(rng, False) for _ in range(ctx.pick(30, 150))]
     alone = {}
 
-    def alone_obs(key, units):
+    def pool(key):
+        return (pool_ok if key[0] == "o" else pool_bad)[key[1]]
+
+    def alone_obs(key):
         if key not in alone:
-            data, abstract = assemble(units)
+            data, abstract = assemble(pool(key)[0])
             alone[key] = observe(data)
         return alone[key]
 
-    cases = []
-    meta = []
+    plans = []
+    names = [c.name for c in ALL_CONFIGS]
+    for a in names:               # every ordered pair of distinct configurations: both orders
+        for b in names:
+            if a != b:
+                plans.append(([("o", by_cfg[a]), ("o", by_cfg[b])], None))
     for n in range(n_streams):
         k = rng.randrange(1, maxseq + 1)
         bad_pos = rng.choice([None] + list(range(k))) if n % 3 else None
-        seqs = []
-        for j in range(k):
-            if bad_pos == j:
-                idx = rng.randrange(len(pool_bad))
-                seqs.append((("b", idx), pool_bad[idx]))
-            else:
-                idx = rng.randrange(len(pool_ok))
-                seqs.append((("o", idx), pool_ok[idx]))
+        keys = [("b", rng.randrange(len(pool_bad))) if bad_pos == j else ("o", rng.randrange(len(pool_ok))) for j in range(k)]
+        plans.append((keys, bad_pos))
+
+    cases, ccases, metas = [], [], []
+    for n, (keys, bad_pos) in enumerate(plans):
+        k = len(keys)
+        seqs = [(key, pool(key)) for key in keys]
         units = [u for (_, (us, _)) in seqs for u in us]
         data, abstract = assemble(units)
         obs = observe(data)
@@ -154,7 +237,7 @@ def run(ctx):
         exp_pics = []
         exp = None
         for j, (key, (us, _)) in enumerate(seqs):
-            v, i, pics = alone_obs(key, us)
+            v, i, pics = alone_obs(key)
             exp_pics += pics
             if v != 0:
                 exp = (v, j, list(exp_pics))
@@ -164,27 +247,51 @@ def run(ctx):
         inp = {"sequences": [{"config": cfgname, "units": [list(t) for t in assemble(us)[1]]} for (_, (us, cfgname)) in seqs],
                "bytes_hex": data.hex()}
         if obs != exp:
-            what = "verdict" if obs[0] != exp[0] else ("sequence index" if obs[1] != exp[1] else "pictures")
+            what = "verdict" if obs[0] != exp[0] else ("sequence index" if obs[1] != exp[1] else
+                                                       ("picture numbers" if [p[0] for p in obs[2]] != [p[0] for p in exp[2]]
+                                                        else "picture content"))
             ctx.violation("concatenation-changes-%s" % what.replace(" ", "-"), inp,
-                          "validating the concatenation differs from validating the sequences one by one (%s)" % what,
-                          observed={"verdict": CODE_NAME.get(obs[0], obs[0]), "sequence": obs[1], "pictures": [p[0] for p in obs[2]]},
-                          expected={"verdict": CODE_NAME.get(exp[0], exp[0]), "sequence": exp[1], "pictures": [p[0] for p in exp[2]]})
+                          "validating/decoding the concatenation differs from doing the sequences one by one (%s)" % what,
+                          observed={"verdict": CODE_NAME.get(obs[0], obs[0]), "sequence": obs[1], "pictures": [list(p) for p in obs[2]]},
+                          expected={"verdict": CODE_NAME.get(exp[0], exp[0]), "sequence": exp[1], "pictures": [list(p) for p in exp[2]]})
         cases.append(lit(abstract, obs))
-        meta.append(inp)
+        ccases.append((units, obs))
+        metas.append(inp)
         ctx.count(1, key=vlib.digest([s["units"] for s in inp["sequences"]]) if k >= 2 else None,
-                  bucket="%d-seq%s" % (k, "" if bad_pos is None else "-bad@%d" % bad_pos))
-        if n < 3:
+                  bucket=("pair-both-orders" if n < len(names) * (len(names) - 1) else
+                          "%d-seq%s" % (k, "" if bad_pos is None else "-bad@%d" % bad_pos)))
+        if n < 2 or len(ctx.samples) < 4 and n % 97 == 0:
             ctx.sample({"sequences": [s["config"] for s in inp["sequences"]], "bad_position": bad_pos,
                         "verdict": CODE_NAME.get(obs[0], obs[0]), "sequence_index": obs[1], "pictures": [p[0] for p in obs[2]]})
     # per-sequence runs are correspondence cases too
     for key, (v, i, pics) in sorted(alone.items()):
-        us = (pool_ok if key[0] == "o" else pool_bad)[key[1]][0]
+        us = pool(key)[0]
         cases.append(lit(assemble(us)[1], (v, i, pics)))
+        ccases.append((us, (v, i, pics)))
         ctx.count(1, bucket="alone")
     bad = ctx.coq_check_cases("concat", IMPORTS, "agree_obs gen_tbl lvl_tbls false", cases, shard=1500, defs=tables_defs())
     for i in (bad or [])[:5]:
         ctx.obligation("corr:concat model/implementation differ", False, "corr-shard", cases[i][:1500])
-    ctx.note("pool: %d conformant, %d non-conformant complete sequences" % (len(pool_ok), len(pool_bad)))
+    # ---- content: decode := table of the REAL per-sequence decodes -----------------------------------
+    table = {}
+    for key, (v, i, pics) in sorted(alone.items()):
+        us = pool(key)[0]
+        for ck, pic in zip(completion_keys(us), pics):      # the first len(pics) completing units are the ones output
+            d = digest_id(pic)
+            if table.setdefault(ck, d) != d:
+                ctx.violation("content-not-a-function-of-the-sequence", {"key": [ck[0], list(ck[1])], "config": pool(key)[1]},
+                              "the same sequence header and picture data units decoded to different pictures in two sequences",
+                              observed=d, expected=table[ck])
+    ctbl = "Definition ctbl : content_table := [%s].\n" % "; ".join(
+        "(%s, %s, %s)" % (cz(h), clist(list(ps)), cz(d)) for (h, ps), d in sorted(table.items()))
+    clits = ["(%s, (%s, %s, [%s]))" % (coq_cunits(us), cz(v), cz(i), "; ".join("(%s, %s)" % (cz(p[0]), cz(digest_id(p))) for p in pics))
+             for us, (v, i, pics) in ccases]
+    badc = ctx.coq_check_cases("content", IMPORTS + ["Model.StreamContent", "Corr.C10"], "agree_content gen_tbl lvl_tbls ctbl", clits,
+                               shard=1200, defs=tables_defs() + ctbl)
+    for i in (badc or [])[:5]:
+        ctx.obligation("corr:content model/implementation differ", False, "corr-shard", clits[i][:1500])
+    ctx.note("pool: %d conformant, %d non-conformant complete sequences; %d ordered configuration pairs; content table: %d keys, "
+             "%d distinct decoded pictures" % (len(pool_ok), len(pool_bad), len(names) * (len(names) - 1), len(table), len(_digests)))
 
 
 def replay(ctx, data):
